@@ -209,6 +209,30 @@ func genImpl(ctx *common.Ctx, uid int) []implJob {
 		}
 		mk("impl-print", setup, bodies, counts, nil, nil, 0, nil)
 	}
+	// ---- a synchronized instance under load: writers of one slot against readers of another slot of the SAME
+	//      instance (one Go map) through every kind of slot read ----
+	{
+		kind := common.Pick(r, []string{"clos", "flavor"})
+		nw, nrd := 1+r.Intn(2), 2+r.Intn(3)
+		var bodies []string
+		var counts []int
+		for i := 0; i < nw; i++ {
+			bodies = append(bodies, fmt.Sprintf("(dotimes (k%d %d) %s) %s", i, 1500+r.Intn(1500), cellWrite(kind, 0, 0, fmt.Sprintf("k%d", i)),
+				okEntry(0, fmt.Sprintf("(integerp %s)", cellRead(kind, 0, 0)), "t")))
+			counts = append(counts, 1)
+		}
+		reads := []string{"(slot-value o0 'v)", "(slot-boundp o0 'v)", "(with-slots (v) o0 v)"}
+		if kind == "flavor" {
+			reads = []string{"(send o0 :v)", "(slot-value o0 'v)"}
+		}
+		for i := 0; i < nrd; i++ {
+			rd := reads[i%len(reads)]
+			bodies = append(bodies, fmt.Sprintf("(let ((bad 0)) (dotimes (q%d %d) (if %s nil (setq bad (+ bad 1)))) %s)", i, 2000+r.Intn(2000), rd,
+				okEntry(0, "bad", "0")))
+			counts = append(counts, 1)
+		}
+		mk("impl-slot-load", nil, bodies, counts, []string{"(synchronizedp o0)"}, []string{"t"}, 0, []string{kind})
+	}
 	// ---- (set-synchronized o t) again while others read and write the instance ----
 	{
 		var bodies []string
